@@ -71,7 +71,7 @@ func genSchemaDoc(r *rand.Rand, depth int, inUnion bool) *refavro.Schema {
 	case 4:
 		return &refavro.Schema{Type: "map", ObjectForm: true, Values: genSchemaDoc(r, depth-1, false)}
 	case 5:
-		s := &refavro.Schema{Type: "fixed", ObjectForm: true, Name: pick(r, docNames), Size: pick(r, []int{0, 1, 4, 12, 16, 17, 1024, 1 << 20})}
+		s := &refavro.Schema{Type: "fixed", ObjectForm: true, Name: pick(r, docNames), Size: pick(r, []int{0, 1, 4, 12, 16, 17, 1024, 1 << 20, 1<<53 + 1, 1 << 62, 1<<63 - 1, 1<<31 + 7, 999999999999999999})}
 		if r.IntN(3) == 0 {
 			s.LogicalType = "decimal"
 		}
